@@ -179,6 +179,8 @@ def _forms(p):
         return str(p[5]) + _forms(p[4])
     if t == 'try':
         return _forms(p[2]) + _forms(p[3])
+    if t == 'group':
+        return _forms(p[2])
     return ''
 
 
@@ -210,6 +212,11 @@ def parse_prog(text, forms=''):
             b, j = go(i + 2 + n)
             h, k = go(j)
             return ('try', cs, b, h), k
+        if t == 'group':
+            n = int(toks[i + 1])
+            nums = [int(x) for x in toks[i + 2:i + 2 + 2 * n]]
+            b, j = go(i + 2 + 2 * n)
+            return ('group', tuple(zip(nums[0::2], nums[1::2])), b), j
         raise ValueError(text)
     p, _ = go(0)
     return p
